@@ -37,9 +37,13 @@ PROGRAMS = {
     'r1': P(1, {'p1': [A(11)], 'c1': [REM], 'r': [CLEAR]}),
     'r2': P(1, {'c1': [REM], 'r': [CLEAR], 'p1': [A(11)], 'x': [CLOSE]}, {'p1': ['r'], 'x': ['p1']}),
     'r3': P(2, {'p1': [A(11), A(12)], 'r': [CLEAR], 's': [SIZE, ARRAY]}, {}),
+    # RemoveAll finishes before anything else starts: no overlap, the queue must behave like a new one of the same capacity
+    'r4': P(1, {'r': [CLEAR], 'p1': [A(11), A(12)], 'c1': [REM, REM], 's': [SIZE, SIZE]}, {'p1': ['r'], 'c1': ['r'], 's': ['r']}),
+    'r5': P(2, {'p0': [A(5), A(6)], 'r': [CLEAR], 'p1': [A(11), A(12), A(13)], 'c1': [REM, REM, REM], 's': [SIZE, ARRAY]},
+            {'r': ['p0'], 'p1': ['r'], 'c1': ['r'], 's': ['r']}),
 }
-QUICK = ['w1', 'w2', 'w3', 'b1', 'r1', 'r2', 'r3']
-THOROUGH = ['w1', 'w2', 'w3', 'w4', 'w5', 'w6', 'b1', 'b2', 'r1', 'r2', 'r3']
+QUICK = ['w1', 'w2', 'w3', 'b1', 'r1', 'r2', 'r3', 'r4', 'r5']
+THOROUGH = ['w1', 'w2', 'w3', 'w4', 'w5', 'w6', 'b1', 'b2', 'r1', 'r2', 'r3', 'r4', 'r5']
 
 
 def run_programs(ctx, names, max_schedules):
@@ -83,6 +87,22 @@ def stress(ctx, n, race):
     return runs, races
 
 
+def clear_overlaps(hist):
+    """does some RemoveAll overlap (in real time) an AddValue / RemoveHead in this history?"""
+    ivs, pend = [], {}
+    for n, e in enumerate(hist):
+        if e['e'] == 'inv':
+            pend[e['p']] = (n, e.get('op'))
+        elif e['p'] in pend:
+            a, op = pend.pop(e['p'])
+            ivs.append((a, n, op))
+    for p, (a, op) in pend.items():
+        ivs.append((a, len(hist) + 1, op))
+    clears = [iv for iv in ivs if iv[2] == 'clear']
+    others = [iv for iv in ivs if iv[2] in ('add', 'rem')]
+    return any(c[0] < o[1] and o[0] < c[1] for c in clears for o in others)
+
+
 def judge_common(ctx, prop, progres, stress_runs, races):
     """prop: 'C04' judges linearizability / panics / races; 'C05' judges
     blocked goroutines and termination."""
@@ -99,10 +119,8 @@ def judge_common(ctx, prop, progres, stress_runs, races):
             meta[key] = (prog, pr['scheds'][i], r)
             if r['status'] == 'drift':
                 ctx.drift.append('program %s schedule %d: %s' % (name, i, r['detail'][:200]))
-            if r['status'] == 'stuck' and prop == 'C05':
-                ctx.violation('program %s: %s' % (name, r['detail']),
-                              {'engine': 'queue', 'kind': 'stuck', 'program': prog, 'schedule': pr['scheds'][i],
-                               'observed': r, 'signature': {'engine': 'queue', 'kind': 'stuck', 'has_clear': hc}})
+            # a stuck end state is judged on its history (below): a call that never
+            # returned must be one the queue's state does not permit to proceed
             if r['history']:
                 items.append((key, prog['cap'], r['history']))
         cov['client_programs'][name] = {'distinct_states': pr['mc']['stats'].get('distinct'), 'edges': len(pr['mc']['edges']),
@@ -131,8 +149,23 @@ def judge_common(ctx, prop, progres, stress_runs, races):
                                'signature': {'engine': 'queue', 'kind': 'lost', 'has_clear': False}})
         items.append((key, run['cap'], run['history']))
     rejected = []
+    if prop == 'C05':
+        # histories that did not run to completion: are the calls left behind rightly blocked?
+        stuck_items = [it for it in items if not qe.complete(it[2])]
+        for key, off in qe.validate_histories(ctx, stuck_items, 's'):
+            prog, sched, r = meta[key]
+            hist = r['history']
+            if off < len(hist):
+                continue       # the history is wrong before its end: a matter of C04
+            hc = bool(prog) and qe.has_clear(prog)
+            left = sorted({e['p'] for e in hist if e['e'] == 'inv'} - set())
+            what = 'calls never returned although the queue permits them to proceed (a value is available or the queue is closed): %s' % (
+                json.dumps([[e['e'], e['p'], e.get('op', ''), e.get('v', 0), e.get('r')] for e in hist[-10:]]))
+            ctx.violation(what, {'engine': 'queue', 'kind': 'stuck', 'program': prog, 'schedule': sched, 'history': hist,
+                                 'signature': {'engine': 'queue', 'kind': 'stuck', 'has_clear': hc,
+                                               'clear_overlaps': clear_overlaps(hist)}})
     if prop == 'C04':
-        rejected = qe.validate_histories(ctx, items, 'h')
+        rejected = qe.validate_histories(ctx, [it for it in items if qe.complete(it[2])], 'h')
         for key, off in rejected:
             prog, sched, r = meta[key]
             hist = r['history']
@@ -143,7 +176,8 @@ def judge_common(ctx, prop, progres, stress_runs, races):
                 json.dumps([[e['e'], e['p'], e.get('op', ''), e.get('v', 0), e.get('r')] for e in hist[max(0, off - 6):off + 3]]))
             ctx.violation(what, {'engine': 'queue', 'kind': 'lin-reject', 'program': prog, 'schedule': sched,
                                  'history': hist, 'first_unexplained': off,
-                                 'signature': {'engine': 'queue', 'kind': 'lin-reject', 'has_clear': hc}})
+                                 'signature': {'engine': 'queue', 'kind': 'lin-reject', 'has_clear': hc,
+                                               'clear_overlaps': clear_overlaps(hist)}})
         for txt in races[:3]:
             ctx.violation('data race reported by the Go race detector in a free-running run:\n' + txt[:1200],
                           {'engine': 'queue', 'kind': 'race', 'report': txt,
@@ -160,7 +194,7 @@ def check(ctx, prop):
     t0 = time.time()
     ctx.build_harness()
     names = QUICK if ctx.quick else THOROUGH
-    progres = run_programs(ctx, names, 1500 if ctx.quick else 12000)
+    progres = run_programs(ctx, names, 800 if ctx.quick else 12000)
     ctx.notes.append('phase programs+replay %.1fs' % (time.time() - t0)); t0 = time.time()
     runs, races = stress(ctx, 150 if ctx.quick else 1500, race=False)
     ctx.notes.append('phase stress %.1fs' % (time.time() - t0)); t0 = time.time()
@@ -205,14 +239,16 @@ def run_c05(ctx):
     cov, items = check(ctx, 'C05')
     # constructors: the class-level constructors with 0..33 initial values (quiescent world model)
     edges, stats = we.gen_edges(ctx, 'queueseq', 1, 2, 1, 1, workers=min(8, core.NCPU))
-    scripts, _ = we.make_scripts(edges, ctx.seed)
-    ctors = [s for s in scripts if s['steps'][-1]['k'] == 'Queue' and s['steps'][-1]['m'].startswith('MakeFrom')]
+    scripts, _ = we.make_scripts(edges, ctx.seed, varied=not ctx.quick)
+    ctors = [s for s in scripts if s['steps'][-1]['k'] == 'Queue']
     tf = we.run_scripts(ctx, 'int', ctors, 'queueseq')
     total, rejects = we.validate(ctx, [tf])
     byid = {s['id']: s for s in scripts}
     for rej in rejects:
         x = rej['line']
-        if x['k'] == 'Queue' and (x['m'].startswith('MakeFrom') or x['pc'] == 'timeout'):
+        if x['k'] == 'Queue' and (x['m'].startswith('Make') or x['pc'] == 'timeout'):
+            # a constructor that does not return / builds the wrong queue, or a call that
+            # blocks although the quiescent queue permits it to proceed
             we.judge(ctx, [rej], lambda f: 'int', byid)
     cov['constructor_scripts'] = len(ctors)
     cov['constructor_lines_validated'] = total
